@@ -1,5 +1,5 @@
 (* Properties_C10.v — C10: bulk memory operations never straddle or leave the sandbox. *)
-From RLBoxV Require Import Ptr Ptr_proofs Bulk Bulk_proofs.
+From RLBoxV Require Import Ptr Ptr_proofs Bulk Bulk_proofs Verify Verify_proofs.
 Local Open Scope Z_scope.
 
 Definition g := code_range_guarded.
@@ -124,6 +124,12 @@ Theorem C10_denied_buffer_checked : forall l src num elsz succ fp,
   range_good l src (w64 (num * elsz)) = true.
 Proof. exact (denied_range_good g). Qed.
 Print Assumptions C10_granted_buffer_checked.
+
+(* unverified_safe_pointer_because on a pointer that itself lies in sandbox memory: the address handed back is the one that
+   was range-checked, whatever is written to the cell while the check runs *)
+Theorem C10_usp_cell_checked : forall sc total size cell m t v m' t',
+  vrun sc (usp_cell total size cell) m t = Ok (v, m', t') -> v = 0 \/ v + size <= total.
+Proof. exact usp_cell_checked. Qed.
 
 Theorem C10_code_is_guarded : g = true.
 Proof. reflexivity. Qed.
